@@ -29,6 +29,9 @@ fragment OnNode on Node { id ... on User { ...FB } ... on Bot { model } }
 query GetMe { me { ...FA } }
 query GetNode($id: ID!) { node(id: $id) { __typename ...OnNode } }
 query GetActors($f: Filter) { actors(f: $f) { __typename ... on User { ...FC ...FD } ... on Bot { size } } }
+query SpreadsInsideInlineFragment { me { id ... on User { ...FF ...FD ...FB ...FC } } node(id: "1") { ... on User { ...FD ...FC ...FB ...FF } } }
+fragment Unpacked on Node { ... on User { ...FC ...FB ...FF ...FD } }
+query SpreadsInsideUnpackedFragment { node(id: "2") { ...Unpacked } }
 """
 PROG = r"""
 import contextlib, io, json, os, sys
